@@ -4,6 +4,7 @@
 package main
 
 import (
+	"strings"
 	"bytes"
 	"encoding/binary"
 	"encoding/json"
@@ -32,6 +33,9 @@ type kase struct {
 	Mi   int    `json:"minute"`
 	S    int    `json:"second"`
 	Note string `json:"note,omitempty"`
+	// After: the process zone was this one while the library was used first, and was changed to Zone
+	// (time.Local reassigned) afterwards
+	After string `json:"zone_before,omitempty"`
 }
 
 type counters struct {
@@ -50,6 +54,7 @@ type counters struct {
 type ctx struct {
 	r       *vk.Run
 	z       *zoneRef
+	after   string // zone-change workers: the zone the process had while the library was first used
 	cnt     counters
 	verbose bool
 
@@ -119,6 +124,11 @@ func (c *ctx) violation(key, what string, k kase) {
 	k.Zone = c.z.name
 	c.say("  => VIOLATION %s: %s", key, what)
 	what = fmt.Sprintf("[TZ=%s] %s", c.z.name, what)
+	if c.after != "" {
+		k.After = c.after
+		key = strings.Replace(key, "C13/", "C13/after-zone-change/", 1)
+		what = fmt.Sprintf("[time.Local was %s while the library was first used, then set to %s] %s", c.after, c.z.name, what)
+	}
 	modern := k.Y >= 2000 && k.Y <= 2068
 	if f, ok := c.viol[key]; ok {
 		f.Count++
